@@ -25,8 +25,8 @@ ASSUMPTIONS = [
     'no control requests are issued (quantifier of C18)',
 ]
 BUDGET = {
-    'quick': {'enum': ['pairs', 'nested', 'ctl', 'hookctl'], 'hyp': 2000, 'shards': 8},
-    'thorough': {'enum': ['pairs', 'triples', 'nested', 'ctl', 'hookctl'], 'hyp': 80000, 'shards': 16},
+    'quick': {'enum': ['pairs', 'nested', 'ctl', 'hookctl', 'wcfail'], 'hyp': 2000, 'shards': 8},
+    'thorough': {'enum': ['pairs', 'triples', 'nested', 'ctl', 'hookctl', 'wcfail'], 'hyp': 80000, 'shards': 16},
 }
 S = gen.S
 OWN_HOOKS = ('on_run', 'on_running', 'on_wait', 'on_waiting', 'on_exit_running', 'on_exit_waiting', 'on_output_emitted', 'on_entered', 'on_entering', 'on_exiting', 'on_finish', 'on_finished')
@@ -83,6 +83,23 @@ def enumerate_cases(tier, scope):
                 if other:
                     procs.append({'program': SHAPES[other], 'pid': 2})
                 yield {'procs': procs, 'start_gaps': [0, gap][: len(procs)], 'nested': False}
+        return
+    if scope == 'wcfail':
+        # a workchain whose awaited child (or one of two) fails or is killed: the wait itself raises in the parent's step,
+        # and the hooks of the failing parent (on_exit_waiting, on_except, on_excepted, on_terminated) run in that step
+        failing_child = {'steps': [S([['yield']], ['raise', 'child failed'], True)]}
+        killed_child = {'steps': [S([['yield']], ['kill', 'ck'], True)]}
+        ok_child = {'steps': [S([['yield'], ['out', 'x', 1]], ['value', 1], True)]}
+        for children in ([failing_child], [ok_child, failing_child], [killed_child], [failing_child, ok_child], [ok_child]):
+            for how in ('ret', 'toctx'):
+                specs = {f'k{i}': ['child', prog, 300 + i] for i, prog in enumerate(children)}
+                beh = {'rets': {'a': [{'__tc__': specs}]} if how == 'ret' else {}, 'tocontext': {'a': [specs]} if how == 'toctx' else {}, 'preds': {}}
+                for other in (None, 'y3', 'sync'):
+                    procs = [{'outline': [['step', 'a'], ['step', 'b']], 'behaviour': beh, 'pid': 1}]
+                    if other:
+                        procs.append({'program': SHAPES[other], 'pid': 2})
+                    for gap in (0, 1):
+                        yield {'procs': procs, 'start_gaps': [0, gap][: len(procs)], 'nested': False}
         return
     if scope == 'hookctl':
         # a kill or pause requested by one of the process's own hooks during a transition: the hooks that carry the
@@ -211,7 +228,7 @@ def execute(case):
     def v(clause, detail):
         viol.append({'clause': clause, 'detail': detail})
 
-    needs_nested = case.get('nested') or any(_uses_nested(p['program']) for p in case['procs'])
+    needs_nested = case.get('nested') or any(_uses_nested(p['program']) for p in case['procs'] if 'program' in p)
     if needs_nested and not NESTED_MODE:
         # executed by the replay entry point or the corpus in an un-patched interpreter: patch now (the interpreter
         # is then dedicated to nested cases, which is what setup_worker arranges in bulk runs)
@@ -240,7 +257,12 @@ def execute(case):
                 if gap <= tick:
                     pending.remove((gap, spec))
                     with loop.as_running():
-                        proc = make_class(spec['program'])(pid=spec['pid'], loop=loop)
+                        if 'outline' in spec:
+                            from .. import wc
+
+                            proc = wc.make_workchain(spec['outline'], spec['behaviour'])(pid=spec['pid'], loop=loop)
+                        else:
+                            proc = make_class(spec['program'])(pid=spec['pid'], loop=loop)
                         procs.append(proc)
                         w.extra.setdefault('constructed', set()).add(proc.pid)
                         w.hook_plan[proc.pid] = list((case.get('hook_plans') or {}).get(str(proc.pid), []))
